@@ -23,7 +23,7 @@ type c14Case struct {
 
 func c14Gen(seed uint64, i int, ntexts int) *c14Case {
 	rng := gen.Derive(seed, "C14", i)
-	rg := &gen.RegexGen{R: rng, Alpha: "abc", Named: i%4 == 3, BackRefs: i%2 == 0, Anchors: true}
+	rg := &gen.RegexGen{R: rng, Alpha: "abc", Named: rng.Chance(1, 4), BackRefs: rng.Chance(1, 2), Anchors: true}
 	re := rg.Regex(2 + i%2)
 	p := &gen.Program{Commands: []gen.Command{{Amount: gen.Amount{Kind: "all"}, Body: []gen.Node{re}}}}
 	src := gen.RenderProgram(p)
@@ -90,7 +90,7 @@ func C14(r *drv.Run) {
 	})
 	if r.NViolations() == 0 {
 		expensiveFloor(r)
-		for _, k := range []string{"go_regexp_compared", "backref_cases", "group_texts_compared", "named_group_cases"} {
+		for _, k := range []string{"go_regexp_compared", "backref_cases", "group_texts_compared", "named_group_cases", "named_backref_cases"} {
 			if r.Counter(k) == 0 {
 				r.Inconclusive("coverage floor: " + k + " = 0")
 			}
@@ -122,6 +122,9 @@ func c14Check(r *drv.Run, cs *c14Case, c *wire.Case, res *wire.Result) {
 	}
 	if cs.rg.Named && cs.rg.NGroups > 0 {
 		r.Count("named_group_cases", 1)
+		if cs.rg.HasBackRef {
+			r.Count("named_backref_cases", 1)
+		}
 	}
 	for ti, text := range cs.texts {
 		if ti >= len(res.Runs) {
